@@ -1,4 +1,5 @@
 import Fdo.Kex.Crypter
+import Fdo.Kex.Wire
 import Fdo.Gen.Kex
 import Fdo.Gen.Schemas
 import Fdo.Prim.Gcm
@@ -28,27 +29,11 @@ def suiteOf (id : Int) : Option Suite := do
   let k ← kindOfAlg row.encAlg
   pure { encAlg := row.encAlg, kind := k, encKeyBytes := row.encKeyBytes, macAlg := row.macAlg, macKeyBytes := row.macKeyBytes }
 
-/-- `SessionCrypter.Decrypt(r)`: stream-decode one `cbor.Tag[RawBytes]`, then by tag number unmarshal the
-raw content into Encrypt0 / Mac0[Encrypt0]. -/
-def decrypt (s : Suite) (sek svk wire : Bytes) : Dec :=
-  match decodeS (fun _ => true) (2 * wire.length + 64) maxDepth (.tagAny .raw) wire with
-  | some (.tag t (.raw raw), _) =>
-    let innerS := if t = 16 then some Fdo.Gen.Schemas.s_Encrypt0 else if t = 17 then some Fdo.Gen.Schemas.s_Mac0_Encrypt0_ else none
-    match innerS with
-    | none => .reject
-    | some sch =>
-      match unmarshalS (fun _ => true) sch raw with
-      | some inner => decryptVal prims s sek svk Fdo.Gen.Schemas.s_Encrypt0 t inner
-      | none => .reject
-  | _ => .reject
+/-- `SessionCrypter.Decrypt(r)` with the Lean primitives (`Fdo.Kex.decryptWire`) -/
+def decrypt (s : Suite) (sek svk wire : Bytes) : Dec := decryptWire prims s sek svk wire
 
 /-- `SessionCrypter.Encrypt` followed by `cbor.Marshal` of the tagged result, for the random bytes `rnd`. -/
-def encrypt (s : Suite) (sek svk rnd p : Bytes) : Option Bytes :=
-  match encryptVal prims s sek svk Fdo.Gen.Schemas.s_Encrypt0 rnd p with
-  | some (t, inner, _) =>
-    let sch := if t = 16 then Fdo.Gen.Schemas.s_Encrypt0 else Fdo.Gen.Schemas.s_Mac0_Encrypt0_
-    (marshalS sch inner).map fun b => encHead 6 t ++ b
-  | none => none
+def encrypt (s : Suite) (sek svk rnd p : Bytes) : Option Bytes := encryptWire prims s sek svk rnd p
 
 def handle (cmd : String) (args : List String) : Option String :=
   match cmd, args with
@@ -63,7 +48,9 @@ def handle (cmd : String) (args : List String) : Option String :=
     | some w =>
       -- the model's own receiver must open what the model's sender built (executable instance of decrypt_encrypt)
       match decrypt s sek svk w with
-      | .ok q => some s!"ok {hexOrDash w} {if q == pt then "self-ok" else "self-differs"}"
+      | .ok q =>
+        let hyp := if wireHypothesesHold prims s sek svk rnd pt then "hyp-ok" else "hyp-fails"
+        some s!"ok {hexOrDash w} {if q == pt then "self-ok" else "self-differs"}:{hyp}"
       | .reject => some s!"ok {hexOrDash w} self-reject"
     | none => some "err"
   | "tunnel.decrypt", [id, sek, svk, wire] => do
